@@ -57,6 +57,10 @@ func (self *JSONRdr) decode() (map[string]interface{}, error) {
 	return self.values, nil
 }
 
+// a write through a selection that stands on a document that was read (SetValue, an edit into
+// it) is a request that cannot be served, not a reason to bring the process down
+var errJsonReaderReadOnly = fmt.Errorf("%w. cannot write to JSON reader", fc.NotImplementedError)
+
 func leafOrLeafListJsonReader(m meta.Leafable, data interface{}) (v val.Value, err error) {
 	return node.NewValue(m.Type(), data)
 }
@@ -66,7 +70,7 @@ func JsonListReader(list []interface{}) node.Node {
 	s.OnNext = func(r node.ListRequest) (next node.Node, key []val.Value, err error) {
 		key = r.Key
 		if r.New {
-			panic("Cannot write to JSON reader")
+			return nil, nil, errJsonReaderReadOnly
 		}
 		if len(r.Key) > 0 {
 			if r.First {
@@ -144,7 +148,7 @@ func JsonContainerReader(container map[string]interface{}) node.Node {
 	}
 	s.OnChild = func(r node.ChildRequest) (child node.Node, e error) {
 		if r.New {
-			panic("cannot write to JSON reader")
+			return nil, errJsonReaderReadOnly
 		}
 		if value, found := fqkGet(r.Meta, container); found {
 			if meta.IsList(r.Meta) {
@@ -164,7 +168,7 @@ func JsonContainerReader(container map[string]interface{}) node.Node {
 	}
 	s.OnField = func(r node.FieldRequest, hnd *node.ValueHandle) (err error) {
 		if r.Write {
-			panic("cannot write to JSON reader")
+			return errJsonReaderReadOnly
 		}
 		if val, found := fqkGet(r.Meta, container); found {
 			hnd.Val, err = leafOrLeafListJsonReader(r.Meta, val)
